@@ -158,7 +158,8 @@ class Builder:
         self.functions.append({'function': tgt.parent + '::' + tgt.name if tgt.parent else (tgt.this + '::' + tgt.name if tgt.this else tgt.name),
                                'cname': tgt.cname, 'file': tgt.rel, 'lines': [b, e], 'ast_hash': astx.node_hash(d),
                                'lowered_c_sha': hashlib.sha256((text + ''.join(getattr(lw, 'lifted', []))).encode()).hexdigest()[:16], 'loops': lw.loops,
-                               'rules_fired': len(lw.fired), 'calls_dropped': len(lw.dropped)})
+                               'rules_fired': len(lw.fired), 'calls_dropped': len(lw.dropped),
+                               'locals': sorted(set(lw.names) - set(getattr(lw, 'param_names', ())))})
         self.last = lw
         if helpers:
             text = '\n'.join(helpers) + '\n/*@END-HELPERS@*/\n' + text
